@@ -240,6 +240,27 @@ def extractPlaceholder : List Term → Option (Nat × List Term)
 
 namespace EFormat
 
+/-- the kind-specific tail of `parse_compound`: fill the components into the pre-built term (arity
+checks for negation and the differences, placeholder extraction for images), then skip the closer -/
+def finishCompound (F : EFormat) (ck : ConnK) (ts : List Term) (c3 : Cur) : PRes (Term × Cur) :=
+  let fin (t : Term) : PRes (Term × Cur) := .ok (t, F.skipAfterSpaces c3 F.compR)
+  match ck with
+  | .neg =>
+    match ts with
+    | [t] => fin (.neg t)
+    | _ => raise c3
+  | .diff k =>
+    match ts with
+    | [a, b] => fin (.bin k a b)
+    | _ => raise c3
+  | .img k =>
+    match extractPlaceholder ts with
+    | some (i, ts') => fin (.image k i (Terms.ofList ts'))
+    | none => raise c3
+  | .seq k => fin (.seqlike k (Terms.ofList ts))
+  | .set k => fin (.setlike k (Terms.ofList (mkSetSem ts)))
+  | .operatorUnsupported => raise c3
+
 mutual
   /-- `parse_term` -/
   def parseTerm (F : EFormat) : Nat → Cur → PRes (Term × Cur)
@@ -292,30 +313,11 @@ mutual
       | none => raise c1
       | some (kw, ck) =>
         let c2 := c1.skip kw
-        match ck with
-        | .operatorUnsupported => raise c2
-        | _ =>
+        if ck = .operatorUnsupported then raise c2
+        else
           match parseTerms F fuel F.compR c2 [] with
           | .ok (ts, c3) =>
-            if ts.isEmpty then raise c3
-            else
-              let fin (t : Term) : PRes (Term × Cur) := .ok (t, F.skipAfterSpaces c3 F.compR)
-              match ck with
-              | .neg =>
-                match ts with
-                | [t] => fin (.neg t)
-                | _ => raise c3
-              | .diff k =>
-                match ts with
-                | [a, b] => fin (.bin k a b)
-                | _ => raise c3
-              | .img k =>
-                match extractPlaceholder ts with
-                | some (i, ts') => fin (.image k i (Terms.ofList ts'))
-                | none => raise c3
-              | .seq k => fin (.seqlike k (Terms.ofList ts))
-              | .set k => fin (.setlike k (Terms.ofList (mkSetSem ts)))
-              | .operatorUnsupported => raise c3
+            if ts.isEmpty then raise c3 else finishCompound F ck ts c3
           | .err h => .err h
           | .panic => .panic
           | .fuel => .fuel
